@@ -183,7 +183,7 @@ class EX:
                 size = node.args[0] if node.args else None
                 if isinstance(size, ast.Name):
                     size = df.single_defs(fi.node).get(size.id, size)
-                sized_by_itself = size is not None and ("%s.bit_length()" % recv) in norm(size) and not norm(recv).startswith("-")
+                sized_by_itself = size is not None and ("%s.bit_length()" % recv) in norm(size) and not recv.startswith("-")
                 if not sized_by_itself:
                     out.append(("OverflowError", norm(node)))
         return out
